@@ -148,7 +148,7 @@ def run_cli(ctx, src, width, case, cli_dir, scopes, expect_ok):
         for f in (p1, pf):
             if os.path.exists(f):
                 os.remove(f)
-        orig = rc.write_p8(regions, src, version=ambient.VERSION[0])
+        orig = rc.write_p8_variant(ctx.rng, regions, src, version=ambient.VERSION[0])
         with open(p1, 'wb') as fh:
             fh.write(orig)
         argv = [ambient.vflag(), 'luafmt', '--indentwidth', str(width)] + (['--overwrite'] if overwrite else []) + [p1]
